@@ -483,6 +483,9 @@ def run(prop, replay_file=None):
         specs = [f5_spec(rng), f5_spec(rng)] + [boundary_spec(rng) for _ in range(8 if t == "quick" else 80)]
         while len(specs) < n:
             specs.append(gen_world(rng, realistic=(len(specs) % 2 == 0)))
+    for k, spec in enumerate(specs):
+        if k % 4 == 1 and not replay_file:
+            spec["cfg"]["split_orders"] = True         # several orders on one side of one asset in a single update
     if REPO not in sys.path:
         sys.path.insert(0, REPO)
     seeds = [str(k) for k in range(12)] + ["random"] if t == "thorough" else [str(k) for k in range(8)]
